@@ -50,11 +50,11 @@ pub fn adversary_alphabet(
 
 pub fn run(cfg: &RunCfg, rep: &mut Report) {
     let world = World::new(cfg.seed);
-    let total = cfg.n_cases(5_000, 40_000);
+    let total = cfg.n_cases(5_000, 15_000);
     let ccfg = case_cfg(cfg.tier);
     let scfg = match cfg.tier {
         Tier::Quick => SearchCfg { max_steps: 200_000, max_vars: 40, max_results: 8 },
-        Tier::Thorough => SearchCfg { max_steps: 2_000_000, max_vars: 60, max_results: 8 },
+        Tier::Thorough => SearchCfg { max_steps: 1_000_000, max_vars: 60, max_results: 8 },
     };
     let (n_tl, max_worlds) = match cfg.tier {
         Tier::Quick => (2, 8),
